@@ -10,6 +10,6 @@ CONSTANTS
   Bases = {0,1,2,3,4,5,6,7,8,9,10,11,12,13,14,15}
   Variant = "as_shipped"
 CONSTRAINT RunBound
-INVARIANTS C13 C14_Bounded C14_Consecutive C14_FirstIsZero
+INVARIANTS C13 C14_Bounded C14_Consecutive C14_SerialCarried C14_FirstIsZero
 PROPERTIES C14_Step C33_FailedRunChangesNothing
 CHECK_DEADLOCK FALSE
